@@ -26,7 +26,7 @@ DISC = {
 #            tier: discipline -> (MaxFrags, MaxTotal in blocks, MaxMarks, cap of scripts per bundle)
 BOUNDS = {
     "quick":    {"lazy": (3, 4, 2, 1500), "eager": (3, 4, 2, 900), "stream": (4, 4, 1, 1200), "block": (4, 5, 1, 400),
-                 "whole": (4, 4, 1, 500), "aead": (3, 3, 1, 700)},
+                 "whole": (4, 4, 1, 500), "aead": (3, 3, 2, 900)},
     "thorough": {"lazy": (5, 4, 2, 60000), "eager": (4, 4, 2, 60000), "stream": (6, 4, 1, 60000), "block": (5, 6, 2, 20000),
                  "whole": (6, 4, 2, 20000), "aead": (4, 3, 2, 60000)},
 }
@@ -78,7 +78,7 @@ def run(ctx):
     for d, ss in scripts.items():
         for bi, b in enumerate(DISC[d][2]):
             for si, s in enumerate(ss):
-                cmds.append("steps b=%s klen=%d script=%s\n" % (b, (16, 24, 32)[(si + bi) % 3], s))
+                cmds.append("steps b=%s klen=%d reloc=%d script=%s\n" % (b, (16, 24, 32)[(si + bi) % 3], (si + bi) % 2, s))
     out_path = ctx.path("steps.ndjson")
     rc, _, err = vlib.run_harness(drv, ["steps"], stdin="".join(cmds).encode(), out_path=out_path,
                                   env={"VERIF_SEED": ctx.seed}, timeout=1800)
@@ -99,7 +99,7 @@ def run(ctx):
         nval += n
         for i in bad:
             row = sh[i - 1]
-            ctx.violation("steps:%s:%s" % (row["b"], row["script"]),
+            ctx.violation("steps:%s:%s%s" % (row["b"], row["script"], ":reloc" if row.get("reloc") else ""),
                           "bundle %s: script %s gives a result different from the one-shot value (or a wrong Get/Verify)" % (row["b"], row["script"]),
                           {"line": row})
         ev.add("trace_states", r.distinct)
